@@ -29,6 +29,24 @@ def fwd : Player → Int
   | .white => 1
   | .black => -1
 
+def promoRank : Player → Nat
+  | .white => 7
+  | .black => 0
+
+def startRank : Player → Nat
+  | .white => 1
+  | .black => 6
+
+/-- direction of a pawn push -/
+def fdir : Player → Dir
+  | .white => .N
+  | .black => .S
+
+/-- the rank a side's pawns start from, as a bitboard (`Game.pawnBackRank`) -/
+def pawnHome : Player → BB
+  | .white => BB.rank2
+  | .black => BB.rank7
+
 /-- squares strictly between `k` and `q` when `q` lies on a ray from `k` (nearest to `k` first);
 empty when `q` is not aligned with `k` -/
 def betweenList (k q : Sq) : List Sq :=
